@@ -330,6 +330,9 @@ def merge_percentiles(finalq, qs, vals, method="lower", Ns=None, raise_on_nan=Tr
                 "interpolation method can only be 'linear', 'lower', "
                 "'higher', 'midpoint', or 'nearest'"
             )
+    # the 0th percentile is the smallest value: the q=0 entries of all
+    # summaries carry a count of zero and sit together at combined_q == 0
+    rv = np.where(desired_q <= 0, combined_vals[0], rv)
     return rv
 
 
